@@ -131,6 +131,31 @@ def stage(h):
     return st
 
 
+import threading
+
+MEM_BUDGET_GB = int(os.environ.get("VERIF_MEM_GB", "52"))
+_mem_cv = threading.Condition()
+_mem_used = [0]
+
+
+class MemBudget:
+    """keeps the sum of the memory caps of concurrently running harnesses under the budget"""
+
+    def __init__(self, gb):
+        self.gb = min(gb, MEM_BUDGET_GB)
+
+    def __enter__(self):
+        with _mem_cv:
+            while _mem_used[0] + self.gb > MEM_BUDGET_GB:
+                _mem_cv.wait()
+            _mem_used[0] += self.gb
+
+    def __exit__(self, *a):
+        with _mem_cv:
+            _mem_used[0] -= self.gb
+            _mem_cv.notify_all()
+
+
 class Slot:
     """one cargo target directory, used by one cargo-kani process at a time"""
 
@@ -350,8 +375,8 @@ def run_harness(stage_dir, h, spec, extra_kani=(), playback=False, log_dir=None)
         # kani-driver keeps CBMC's whole JSON trace in memory when extracting the
         # counterexample; give it room (only runs after a tagged failure)
         timeout, mem_gb = max(timeout * 3, 1800), 48
-    t0 = time.time()
-    with Slot() as tgt:
+    with MemBudget(mem_gb), Slot() as tgt:
+        t0 = time.time()
         cmd = ["cargo", "kani", "--target-dir", tgt] + KANI_FLAGS + list(spec.get("kani", [])) + list(extra_kani)
         cmd += ["--harness", full, "--exact", "--cbmc-args"] + CBMC_ARGS + list(spec.get("cbmc", []))
         sh = "ulimit -v %d; exec timeout -k 10 %d %s" % (
